@@ -435,3 +435,5 @@ MANIFEST = {
             "the SSA functional program is proved for updates on a tensor without live views (inplace_on_owner_is_ssa_renaming) "
             "and validated by the correspondence + exact oracle on every run for view forests (named gap inplace_graph_iso); H_vars_only is monitored per op class.",
 }
+
+MANIFEST_ADDENDUM = 'Oracle additions: the GRU and four where-masked ufuncs among the 25 op/layer classes of the forward/mutate-input/backward monitor; 12 cases in which the index object of x[index] / x[index] = v is changed after the forward pass.'
